@@ -239,7 +239,16 @@ func (st *StudentsT) CovarianceMatrix(dst *mat.SymDense) {
 		panic("studentst: input matrix size mismatch")
 	}
 	dst.CopySym(&st.sigma)
-	dst.ScaleSym(st.nu/(st.nu-2), dst)
+	scale := st.nu / (st.nu - 2)
+	switch {
+	case st.nu <= 1:
+		// The covariance is undefined.
+		scale = math.NaN()
+	case st.nu <= 2:
+		// The variances are infinite.
+		scale = math.Inf(1)
+	}
+	dst.ScaleSym(scale, dst)
 }
 
 // Dim returns the dimension of the distribution.
